@@ -21,6 +21,7 @@
  *   cuts     as in h_netio: sizes of successive read() results, "-" = as much as asked for
  * answer:    blank separated event log
  *   C<ret> smtp_bdat returned   S bad sequence   Y no blank behind verb   G line longer than 510
+ *   Z RSET done   M MAIL FROM: accepted   P RCPT TO: accepted (one more good recipient)
  *   X<hex> other line   E<errno> net_read failed   D<errno> dieerror   R<hex> reply written
  *   QI<r> queue_init   T Received: line written (Tf: failed)   QE<size>:<chunked>:<hex> queue_envelope
  *   with everything written to the data pipe behind the trace   QR<r> queue_result   QX queue_reset
@@ -216,6 +217,32 @@ int main(void)
 				if (net_read(1)) {
 					snprintf(b, sizeof(b), "E%s", ename(errno)); ev(b);
 					if (errno == ECONNRESET) break;
+					continue;
+				}
+				/* the rows of commands[] a BDAT transaction lives between (masks / states from the extracted table):
+				 * RSET runs the code of smtp_rset(); MAIL FROM: and RCPT TO: are reduced to their effect on the
+				 * state machine (comstate, one more good recipient) */
+				if (strncasecmp(linein.s, "RSET", 4) == 0 && linein.s[4] == 0) {
+					if (!(comstate & RSET_MASK)) { ev("S"); continue; }
+					cmd.state = RSET_STATE;
+					if (comstate == RSET_BDAT_STATE) queue_reset();
+					if (comstate >= RSET_HELO_STATE) { freedata(); cmd.state = (RSET_HELO_STATE << xmitstat.esmtp); }
+					(void) netwrite(RSET_REPLY);
+					comstate = (unsigned long)cmd.state;
+					ev("Z");
+					continue;
+				}
+				if (strncasecmp(linein.s, "MAIL FROM:", 10) == 0) {
+					if (!(comstate & MAIL_MASK)) { ev("S"); continue; }
+					comstate = MAIL_STATE; ev("M");
+					continue;
+				}
+				if (strncasecmp(linein.s, "RCPT TO:", 8) == 0) {
+					if (!(comstate & RCPT_MASK)) { ev("S"); continue; }
+					struct recip *r = calloc(1, sizeof(*r));
+					r->to.s = strdup("a@example.net"); r->to.len = strlen(r->to.s); r->ok = 1;
+					TAILQ_INSERT_TAIL(&head, r, entries);
+					goodrcpt++; comstate = RCPT_STATE; ev("P");
 					continue;
 				}
 				if (strncasecmp(linein.s, "BDAT", 4) != 0) { evhex("X", (unsigned char *)linein.s, linein.len); continue; }
